@@ -94,6 +94,11 @@ def boundary_values():
         for d in (-1, 0, 1):
             out.add(2**k + d)
             out.add(-(2**k + d))
+    # types given as a number of decimal digits (number(p, 0), decimal(p)) have their boundaries at the powers of ten
+    for k in (1, 2, 3, 9, 10, 11, 18, 19, 20, 30, 31, 38):
+        for d in (-1, 0, 1):
+            out.add(10**k + d)
+            out.add(-(10**k + d))
     return sorted(out)
 
 
